@@ -1,5 +1,5 @@
-(* C01/Refuted.v — the clause about "reported established" is false of the code
-   as it is (two witnesses), and the lemmas about the tables read from the sources. *)
+(* C01/Refuted.v — the clauses that are false of the code as it is (witnesses),
+   what holds instead, and the lemmas about the tables read from the sources. *)
 From Coq Require Import ZifyBool ZifyNat ZifyN.
 From XV Require Import lib.Bytes gen.NegTables Neg.Model Neg.Proofs C01.Model C01.Proofs.
 
@@ -21,25 +21,15 @@ Proof.
   split; [vm_compute; reflexivity|]. exists fb. split; vm_compute; auto.
 Qed.
 
-Lemma established_sound_refuted_restart :
-  exists c bits clear tls outs choices,
-    let r := run c bits clear tls outs choices in
-    r_class r = ROk /\ q_need_header (final (c_feats c) (c_ws c) (mon0 bits) (trace r)) = true.
-Proof.
-  exists cfg_ab, 0%N, [hdr; mkItem false (PFeatures [FC xa (str "a") false false])], [],
-         [mkO st_Ready true false], [xa].
-  split; vm_compute; reflexivity.
-Qed.
-
 Lemma established_sound_false : ~ established_sound_statement.
 Proof.
   intro S.
-  pose proof (S cfg_ab 0%N [hdr; mkItem false (PFeatures [FC xa (str "a") false false])] []
-              [mkO st_Ready true false] [xa]) as X.
+  pose proof (S cfg_ab 0%N [hdr; mkItem false (PFeatures [FC xa (str "a") true false; FC xb (str "b") true false])] []
+              [mkO st_Ready false false] [xa]) as X.
   unfold established_sound in X.
-  assert (A : r_class (run cfg_ab 0 [hdr; mkItem false (PFeatures [FC xa (str "a") false false])] []
-              [mkO st_Ready true false] [xa]) = ROk) by (vm_compute; reflexivity).
-  destruct (X A) as (_ & _ & B & _). vm_compute in B. discriminate.
+  assert (A : r_class (run cfg_ab 0 [hdr; mkItem false (PFeatures [FC xa (str "a") true false; FC xb (str "b") true false])] []
+              [mkO st_Ready false false] [xa]) = ROk) by (vm_compute; reflexivity).
+  destruct (X A) as (_ & _ & _ & B). apply B. exists fb. split; vm_compute; auto.
 Qed.
 
 (* ------------------------------------------------------------------ tables read from the sources *)
@@ -82,7 +72,7 @@ Proof.
   destruct (get_feature (sp, lo) fs) as [f|]; [|apply IH; exact Hin].
   destruct perr; [left; exact Hin|].
   destruct (IH _ Hin) as [X|X].
-  - apply In_cache_step in X. destruct X as [[X _]|X]; [|left; exact X].
+  - apply In_cache_step in X. destruct X as [X|X]; [|left; exact X].
     right. left. symmetry. exact X.
   - right. right. exact X.
 Qed.
@@ -131,19 +121,18 @@ Definition established_literal_statement : Prop :=
     let q := final (c_feats c) (c_ws c) (mon0 bits) (trace r) in
     r_class r = ROk -> has (r_bits r) st_Ready = true /\ q_need_header q = false /\ ~ pending_adv q.
 
-(* it is false even when no feature reports Ready itself: a feature advertised
-   as required while its prerequisites did not hold never enters the cache, and
-   `nothing left to negotiate` reports Ready although it is eligible by now *)
+(* it is false even when no feature reports Ready itself: the cache is keyed by
+   name space, so of two configured features in one name space the advertisement
+   names, only the later is kept *)
 Lemma established_literal_refuted :
   exists c bits clear tls outs choices,
     let r := run c bits clear tls outs choices in
     let q := final (c_feats c) (c_ws c) (mon0 bits) (trace r) in
     r_class r = ROk /\ self_ready (trace r) = false /\ pending_adv q.
 Proof.
-  exists cfg_w3, 0%N, [hdr; mkItem false (PFeatures [FC xa (str "a") false false; FC xb (str "b") true false])], [],
-         [mkO st_Authn false false], [xa].
+  exists cfg_w5, 0%N, [hdr; mkItem false (PFeatures [FC xa (str "a") true false; FC xa (str "a2") false false])], [], [], [].
   split; [vm_compute; reflexivity|]. split; [vm_compute; reflexivity|].
-  exists fb_authn. split; vm_compute; auto.
+  exists fa_req. split; vm_compute; auto.
 Qed.
 
 Lemma established_literal_false : ~ established_literal_statement.
@@ -154,8 +143,7 @@ Qed.
 
 (* what holds of the literal reading: unless a feature reported Ready itself, a
    feature left open in the literal sense is one that was not an entry of the
-   cache — its prerequisites did not hold when it was advertised (or a later
-   child in the same name space replaced it) *)
+   cache: a later child in the same name space replaced it *)
 Lemma established_literal_partial c bits clear tls outs choices :
   let r := run c bits clear tls outs choices in
   let q := final (c_feats c) (c_ws c) (mon0 bits) (trace r) in
@@ -163,8 +151,8 @@ Lemma established_literal_partial c bits clear tls outs choices :
   q_need_header q = false /\
   forall g, In (true, g) (q_advall q) -> cand (q_negd q) (q_last q) (true, g) = true -> ~ In (true, g) (q_cache q).
 Proof.
-  intros r q Hok Hs. destruct (established_when_no_self_ready c bits clear tls outs choices Hok) as [_ X].
-  destruct (X Hs) as [X1 X2]. split; [exact X1|].
+  intros r q Hok Hs. destruct (established_when_no_self_ready c bits clear tls outs choices Hok) as (_ & X1 & X).
+  pose proof (X Hs) as X2. split; [exact X1|].
   intros g _ Hc Hin. apply X2. exists g. split; [exact Hin | exact Hc].
 Qed.
 
@@ -180,9 +168,9 @@ Lemma voluntary_first_literal_refuted :
     q_recv q = false /\ In (true, f) (q_cache q) /\ In (false, g) (q_advall q) /\
     cand (q_negd q) st (false, g) = true.
 Proof.
-  exists cfg_w4, 0%N, [hdr; mkItem false (PFeatures [FC xa (str "a") false false; FC xb (str "b") false false; FC xc (str "c") true false])], [],
-         [mkO st_Authn false false; mkO 0%N false false], [xa; xc].
-  exists (firstn 7 (trace w4_run)), (skipn 8 (trace w4_run)), fr3, st_Authn, (mkO 0%N false false), fv_authn.
+  exists cfg_w6, 0%N, [hdr; mkItem false (PFeatures [FC xa (str "a") false false; FC xa (str "a2") false false; FC xc (str "c") true false])], [],
+         [mkO 0%N false false], [xc].
+  exists (firstn 6 (trace w6_run)), (skipn 7 (trace w6_run)), fr3, 0%N, (mkO 0%N false false), fv_a.
   split; [vm_compute; reflexivity|]. vm_compute. auto 10.
 Qed.
 
